@@ -22,6 +22,8 @@
 
 #include <cstdio>
 #include <climits>
+#include <limits>
+#include <type_traits>
 
 #include "mp/sol-reader2.h"
 
@@ -69,6 +71,10 @@ inline NLW2_SOLReadResultCode Read(
       return NLW2_SOLRead_Bad_Line;
     auto el = strtod(s = se, &se);
     if (se <= s)
+      return NLW2_SOLRead_Bad_Line;
+    if (std::is_integral<El>::value
+        && !(el >= (double)std::numeric_limits<El>::min()
+             && el <= (double)std::numeric_limits<El>::max()))
       return NLW2_SOLRead_Bad_Line;
     v.second = (El)el;
   }
@@ -399,12 +405,14 @@ bad_objno:
       return ReportBadLine(buf);
       }
     x = strtod(s = buf+6, &se);
-    if (se <= s)
+    if (se <= s || !(x >= INT_MIN && x <= INT_MAX))
       goto bad_objno;
     objno = (int)x;
     x = strtod(s = se, &se);
     if (se <= s)
       goto f_done;
+    if (!(x >= INT_MIN && x <= INT_MAX))
+      goto bad_objno;
     Objno[1] = (Long)x;
 
     /* Submit objno and solve_code to Handler. */
